@@ -1623,6 +1623,17 @@ class IndexHierarchy(IndexBase):
             if levels.targets is None: # fall back to 1D index
                 return levels.index.rename(name)
 
+            # the leaf count below each remaining node changed: re-base the offsets, which count leaves
+            levels_stack = [levels]
+            while levels_stack:
+                level = levels_stack.pop()
+                if level.targets is not None:
+                    offset = 0
+                    for t in level.targets:
+                        t.offset = offset
+                        offset += t.__len__()
+                    levels_stack.extend(level.targets)
+
             # if we have TypeBlocks and levels is the same length
             if not self._recache and levels.__len__() == self.__len__():
                 blocks = self._blocks.iloc[NULL_SLICE, :count]
